@@ -296,7 +296,7 @@ Theorem facts_sound_model : forall r P compl,
   (if compl
    then f_suffix (r_facts r) = P /\ f_min (r_facts r) = len P /\ f_max (r_facts r) = len P
    else accepted_length_cached (r_prog r) = Some (f_min (r_facts r), f_max (r_facts r)) /\
-        constant_suffix (r_prog r) = Some (f_suffix (r_facts r))) ->
+        constant_suffix_b (r_prog r) = Some (f_suffix (r_facts r))) ->
   facts_sound r.
 Proof.
   intros r P compl Hwf Hp EP Hc. unfold facts_sound. rewrite EP.
@@ -309,7 +309,7 @@ Proof.
     + apply starts_with_self_suffix.
     + split; [apply N.le_refl | intros _; apply N.le_refl].
   - destruct Hc as [Hl Hs]. split; intros w Hw.
-    + eapply constant_suffix_sound; eauto.
+    + eapply constant_suffix_b_sound; eauto.
     + eapply cached_length_sound; eauto.
 Qed.
 
